@@ -25,7 +25,11 @@ Inductive cm : Type :=
 | CTimeit                (* pg.timeit *)
 | CDynEval               (* pg.hyper.dynamic_evaluate(per_thread=True) *)
 | CDynEvalGlobal         (* pg.hyper.dynamic_evaluate(per_thread=False) *)
-| CLoadTypes.            (* pg.JSONConvertible.load_types_for_deserialization *)
+| CLoadTypes             (* pg.JSONConvertible.load_types_for_deserialization *)
+(* DynamicEvaluationContext.collect() / .apply() = CDynGuard ; CDynEval[Global] ; CDynStackL/G, nested in this order *)
+| CDynGuard              (* _DynamicEvaluationStack.ensure_thread_safety: per-thread and process-wide contexts must not be mixed *)
+| CDynStackL             (* the thread's stack of active per-thread contexts *)
+| CDynStackG.            (* the process-wide stack of active process-wide contexts *)
 
 Definition lift_enter (f : store -> option (store * list val)) (s : state) : option (state * list val) :=
   match f (fst s) with Some (l, sv) => Some ((l, snd s), sv) | None => None end.
@@ -74,6 +78,16 @@ Definition dyn_exit (per_thread : val) (fn : val) (saved : list val) : state -> 
 Definition loadtypes_enter (types : val) : state -> option (state * list val) := lift2_enter (load_types_enter types).
 Definition loadtypes_exit (types : val) (saved : list val) : state -> state := lift2_exit (load_types_exit types saved).
 
+(* dynamic_evaluation.py: _DynamicEvaluationStack (hand-written; the source is pinned by fingerprint).
+   ensure_thread_safety(context) raises ValueError, changing nothing, when a per-thread context is entered while a
+   process-wide one is active (anywhere) or a process-wide one while a per-thread one is active in this thread. *)
+Definition dynguard_enter (per_thread : val) (s : state) : option (state * list val) :=
+  if truthy per_thread
+  then (if truthy (tl_get g_dynstack v_none (snd s)) then None else Some (s, []))
+  else (if truthy (tl_get k_dynstack v_none (fst s)) then None else Some (s, [])).
+Definition stack_read (k : tlkey) (st : store) : val :=
+  match st_get k st with Some (VS l) => VS l | _ => VS [] end.
+
 Definition cm_enter (c : cm) (a : val) (s : state) : option (state * list val) :=
   match c with
   | CFlag i => match nth_error flag_scopes i with
@@ -91,6 +105,9 @@ Definition cm_enter (c : cm) (a : val) (s : state) : option (state * list val) :
   | CDynEval => dyn_enter v_true a s
   | CDynEvalGlobal => dyn_enter v_false a s
   | CLoadTypes => loadtypes_enter a s
+  | CDynGuard => dynguard_enter a s
+  | CDynStackL => match a with VD _ => Some ((tl_push k_dynstack a (fst s), snd s), []) | _ => None end   (* a context, as a dict *)
+  | CDynStackG => match a with VD _ => Some ((fst s, tl_push g_dynstack a (snd s)), []) | _ => None end
   end.
 
 Definition cm_exit (c : cm) (a : val) (sv : list val) (s : state) : state :=
@@ -110,12 +127,15 @@ Definition cm_exit (c : cm) (a : val) (sv : list val) (s : state) : state :=
   | CDynEval => dyn_exit v_true a sv s
   | CDynEvalGlobal => dyn_exit v_false a sv s
   | CLoadTypes => loadtypes_exit a sv s
+  | CDynGuard => s
+  | CDynStackL => (tl_pop k_dynstack (fst s), snd s)
+  | CDynStackG => (fst s, tl_pop g_dynstack (snd s))
   end.
 
 (* --- the public getters ---------------------------------------------------------------------- *)
 Inductive getter : Type :=
 | GFlag (i : nat) | GPerm | GStrFmt | GReprFmt | GViewOpts | GCtx | GContextual | GDetour | GTimeit
-| GDynEval | GLoadTypes.
+| GDynEval | GLoadTypes | GDynStackL | GDynStackG.
 
 Definition observe (g : getter) (s : state) : val :=
   let l := fst s in
@@ -131,6 +151,8 @@ Definition observe (g : getter) (s : state) : val :=
   | GTimeit => tl_get k_timing v_none l
   | GDynEval => get_dynamic_evaluate_fn l (snd s)
   | GLoadTypes => tl_peek g_ondemand_types v_empty_dict (snd s)
+  | GDynStackL => stack_read k_dynstack l
+  | GDynStackG => stack_read g_dynstack (snd s)
   end.
 
 (* the getter that reads the setting of a manager *)
@@ -139,15 +161,17 @@ Definition getter_of (c : cm) : getter :=
   | CFlag i => GFlag i | CPerm => GPerm | CStrFmt => GStrFmt | CReprFmt => GReprFmt | CViewOpts => GViewOpts
   | CCtx => GCtx | CContextual => GContextual | CDetour | CApplyWrappers => GDetour | CTimeit => GTimeit
   | CDynEval | CDynEvalGlobal => GDynEval | CLoadTypes => GLoadTypes
+  | CDynGuard | CDynStackL => GDynStackL | CDynStackG => GDynStackG
   end.
 
 (* managers whose store is process-wide, and getters that read it *)
-Definition cm_global (c : cm) : bool := match c with CDynEvalGlobal | CLoadTypes => true | _ => false end.
-Definition cm_reads_global (c : cm) : bool := match c with CDynEval | CDynEvalGlobal | CLoadTypes => true | _ => false end.
-Definition getter_global (g : getter) : bool := match g with GDynEval | GLoadTypes => true | _ => false end.
+Definition cm_global (c : cm) : bool := match c with CDynEvalGlobal | CLoadTypes | CDynStackG => true | _ => false end.
+Definition cm_reads_global (c : cm) : bool :=
+  match c with CDynEval | CDynEvalGlobal | CLoadTypes | CDynGuard | CDynStackG => true | _ => false end.
+Definition getter_global (g : getter) : bool := match g with GDynEval | GLoadTypes | GDynStackG => true | _ => false end.
 (* the managers the library documents as process-wide *)
 Definition documented_process_wide (c : cm) : bool :=
-  match c with CApplyWrappers | CDynEvalGlobal | CLoadTypes => true | _ => false end.
+  match c with CApplyWrappers | CDynEvalGlobal | CLoadTypes | CDynStackG => true | _ => false end.
 
 (* --- programs ---------------------------------------------------------------------------------- *)
 Inductive sprog : Type :=
@@ -187,13 +211,13 @@ Definition escapes (r : state * list val * bool) : bool := snd r.
    exactly (their scopes test for the presence of the key). *)
 Inductive kclass := KExact | KStack | KDict | KNone.
 Definition lclass (k : tlkey) : kclass :=
-  if existsb (Nat.eqb k) [k_str_format; k_repr_format; k_view_options; k_context; k_detour] then KStack
+  if existsb (Nat.eqb k) [k_str_format; k_repr_format; k_view_options; k_context; k_detour; k_dynstack] then KStack
   else if Nat.eqb k k_contextual then KDict
   else if existsb (Nat.eqb k) [k_permission; k_timing] then KNone
   else KExact.
 Definition gclass (k : tlkey) : kclass :=
   if Nat.eqb k g_dynamic_evaluate then KNone
-  else if Nat.eqb k g_ondemand_types then KStack
+  else if Nat.eqb k g_ondemand_types || Nat.eqb k g_dynstack then KStack
   else KExact.
 Definition nrm_at (c : kclass) (o : option val) : option val :=
   match c, o with
@@ -309,6 +333,7 @@ Definition d_cm (t : tr) : option cm :=
   | L [I 1] => Some CPerm | L [I 2] => Some CStrFmt | L [I 3] => Some CReprFmt | L [I 4] => Some CViewOpts
   | L [I 5] => Some CCtx | L [I 6] => Some CContextual | L [I 7] => Some CDetour | L [I 8] => Some CApplyWrappers
   | L [I 9] => Some CTimeit | L [I 10] => Some CDynEval | L [I 11] => Some CDynEvalGlobal | L [I 12] => Some CLoadTypes
+  | L [I 13] => Some CDynGuard | L [I 14] => Some CDynStackL | L [I 15] => Some CDynStackG
   | _ => None
   end.
 Definition d_getter (t : tr) : option getter :=
@@ -316,7 +341,7 @@ Definition d_getter (t : tr) : option getter :=
   | L [I 0; i] => do n <- dnat i; Some (GFlag n)
   | L [I 1] => Some GPerm | L [I 2] => Some GStrFmt | L [I 3] => Some GReprFmt | L [I 4] => Some GViewOpts
   | L [I 5] => Some GCtx | L [I 6] => Some GContextual | L [I 7] => Some GDetour | L [I 8] => Some GTimeit
-  | L [I 9] => Some GDynEval | L [I 10] => Some GLoadTypes
+  | L [I 9] => Some GDynEval | L [I 10] => Some GLoadTypes | L [I 11] => Some GDynStackL | L [I 12] => Some GDynStackG
   | _ => None
   end.
 Fixpoint d_prog (fuel : nat) (t : tr) : option sprog :=
